@@ -112,7 +112,7 @@ func (rn *Runner) Report(rp *Replay, summary string) {
 	path := filepath.Join(rn.ReplayDir, name)
 	os.WriteFile(path, data, 0o644)
 	if len(summary) > 400 {
-		summary = summary[:400] + "..."
+		summary = strings.ToValidUTF8(summary[:400], "") + "..."
 	}
 	rn.St.Mismatches = append(rn.St.Mismatches, Mismatch{
 		Property: rn.Prop, Family: rp.Family, Clause: rp.Clause, Summary: summary,
